@@ -63,6 +63,22 @@ def judge(ctx, backend, behs, results, count_trace=True):
     return drift
 
 
+ONE_COMMITMENT = ('c1s', 'c1p', 'c1po')
+
+
+def identity_composite(b):
+    """Two edits that cancel: on a circuit with exactly one commitment, dropping the commitment and appending a duplicate of
+    the genuine first commitment (in either order) gives back the genuine list.  The decision model judges edits one by one
+    (each is effective on its own) and would demand a rejection of an unaltered proof: such behaviours are not judged."""
+    if len(b['edits']) != 2 or b['shape'] not in ONE_COMMITMENT:
+        return False
+    ops = {e['op']: e for e in b['edits']}
+    for drop, app in (('CommitDrop', 'CommitAppend'), ('BsbDrop', 'BsbAppend')):
+        if drop in ops and app in ops and ops[drop].get('i') == 1 and ops[app].get('cls') == 'dup':
+            return True
+    return False
+
+
 def run_protocol(ctx, module, cmd, backend, quick_pairs=1200, thorough_pairs=None, curves=CURVES):
     quick = ctx.tier == 'quick'
     r1 = ctx.tlc(module, module + '_gen1.cfg', workers=1)
@@ -70,6 +86,10 @@ def run_protocol(ctx, module, cmd, backend, quick_pairs=1200, thorough_pairs=Non
     behs = r1.beh + rp.beh
     r2 = ctx.tlc(module, module + '_gen2.cfg', workers=1, timeout=1800)
     pairs = [b for b in r2.beh if len(b['edits']) == 2]
+    for b in pairs:
+        if identity_composite(b) and b['spec'] == 'reject':
+            b['spec'] = 'either'
+            ctx.extra['identity_composites_not_judged'] = ctx.extra.get('identity_composites_not_judged', 0) + 1
     ctx.extra['pair_behaviours_total'] = len(pairs)
     if quick:
         ctx.rng.shuffle(pairs)
